@@ -177,8 +177,9 @@ pub fn expand(domain: Domain, regime: usize, base: f64, aux: f64, noise: &[f64])
     }
     match domain {
         Domain::Positive => {
+            let (lo, hi) = if base < 1e-3 || base > 1e9 { (base * 1e-3, base * 1e7) } else { (1e-3, 1e9) };
             for v in out.iter_mut() {
-                *v = v.abs().clamp(1e-3, 1e9);
+                *v = v.abs().clamp(lo, hi);
             }
         }
         Domain::PositiveGrid => {
@@ -186,7 +187,7 @@ pub fn expand(domain: Domain, regime: usize, base: f64, aux: f64, noise: &[f64])
             let g = grid_step(base);
             for v in out.iter_mut() {
                 let q = (v.abs() / g).round().max(1.0);
-                *v = (q * g).clamp(g, 1e9);
+                *v = (q * g).clamp(g, if base > 1e6 { base * 1e7 } else { 1e9 });
             }
         }
         Domain::AnySign => {
@@ -230,12 +231,23 @@ fn base_strategy(domain: Domain) -> BoxedStrategy<f64> {
         ]
         .boxed(),
         Domain::Positive => prop_oneof![
-            4 => (-2.0f64..5.0).prop_map(|e| 10f64.powf(e)),
-            1 => Just(1.0),
-            1 => Just(85.18),
+            16 => (-2.0f64..5.0).prop_map(|e| 10f64.powf(e)),
+            4 => Just(1.0),
+            4 => Just(85.18),
+            // unusual but valid price units (sub-atto quotes, hyper-inflated ones): an absolute
+            // epsilon or constant in the code shows up only here
+            1 => Just(1e-30),
+            1 => Just(3.7e-17),
+            1 => Just(1e15),
         ]
         .boxed(),
-        Domain::PositiveGrid => (-6i32..=20).prop_map(|k| 2f64.powi(k)).boxed(),
+        Domain::PositiveGrid => prop_oneof![
+            12 => (-6i32..=20).prop_map(|k| 2f64.powi(k)),
+            1 => Just(2f64.powi(-70)),
+            1 => Just(2f64.powi(-52)),
+            1 => Just(2f64.powi(45)),
+        ]
+        .boxed(),
     }
 }
 
@@ -284,7 +296,7 @@ pub fn bars_from(path: &[f64], shape: &[(f64, f64, f64, f64, f64)], grid: Option
     let mut out = Vec::with_capacity(path.len());
     for (i, &mid) in path.iter().enumerate() {
         let (u_up, u_dn, u_c, u_o, u_v) = shape[i % shape.len().max(1)];
-        let mid = mid.abs().max(1e-3);
+        let mid = if mid == 0.0 { 1e-3 } else { mid.abs() };
         // ranges: sometimes zero (one-price bar), sometimes tiny, sometimes large
         let rng_class = (u_up * 8.0) as usize;
         let spread = match rng_class {
